@@ -116,7 +116,7 @@ impl<'a> G<'a> {
                 1 => { if self.u.coin(1, 3) { let s = self.pick(&["$char10.", "best12.2", "date9.", "$20.", "8.", "$upcase8.", "comma12."]); self.p(s); } else { let s = self.pick(IDENTS); self.p(s); } }
                 2 => { let s = self.pick(OPEN_KW); self.p(s); }
                 3 => self.number(),
-                4 => self.str_lit(),
+                4 => { if self.u.coin(1, 8) { self.str_with_stat(); } else { self.str_lit(); } }
                 5 => { let s = self.pick(OPEN_SYM); self.p(s); self.p(" "); } // space avoids gluing into macro triggers / other symbols
                 6 => { self.mvar(true); }
                 7 => { self.user_call(0); if !self.out.ends_with(')') { self.p(" "); let s = self.pick(IDENTS); self.p(s); } }
@@ -140,6 +140,12 @@ impl<'a> G<'a> {
             6 => { self.p("\"p "); self.tp(); if self.u.coin(1, 2) { self.user_call(1); } else { self.feat("strexpr-builtin"); self.d_inc(); self.builtin_call(1); self.depth -= 1; } self.p(" q"); self.tp(); self.p("\""); self.feat("strexpr-call"); }
             _ => { let s = self.pick(&["'01jan2020'd", "'12:00't", "'1jan20:0:0'dt", "'my var'n", "'4a4B'x", "\"41,42\"X", "'1010'b", "\"&v\"d", "\"&v\"n", "\"&v\"t", "\"4&v\"x", "\"&v\"b", "\"&v\"dt", "\"&v\"DT", "\"100% sure\"", "\"a & b && c\"", "\"line1\nline2\"", "'a\nb'", "\"%m is 50% of &v\"", "''", "\"\""]); self.p(s); }
         }
+    }
+    // a double-quoted string expression containing a macro statement (allowed in open code, call arguments and %str bodies)
+    fn str_with_stat(&mut self) {
+        self.feat("stat-in-string"); self.p("\"s "); self.tp();
+        self.d_inc(); if self.u.coin(1, 2) { self.let_stmt(); } else { self.put_stmt(); } self.depth -= 1;
+        self.p(" e"); self.tp(); self.p("\"");
     }
     fn mvar(&mut self, dots: bool) { self.feat("mvar"); let v = self.pick(MVARS); match self.u.below(if dots { 6 } else { 5 }) { 0 | 1 => { self.p("&"); self.p(v); } 2 => { self.p("&"); self.p(v); self.p("."); } 3 => { self.p("&&"); self.p(v); self.p("&i"); } 4 => { self.p("&&&"); self.p(v); } _ => { self.p("&"); self.p(v); self.p("&n1.."); } } }
 
@@ -183,7 +189,7 @@ impl<'a> G<'a> {
         let n = self.u.below(4);
         for _ in 0..n {
             self.tp();
-            match if self.depth > 5 { self.u.below(3) } else { self.u.below(11) } {
+            match if self.depth > 5 { self.u.below(3) } else { self.u.below(12) } {
                 0 | 1 => { let w = self.pick(WORDS); self.p(w); self.tp(); }
                 2 => { let ws = self.pick(&[" ", " ", "\n", "\t"]); self.p(ws); let w = self.pick(WORDS); self.p(w); self.tp(); }
                 3 => { match self.u.below(8) { 0 => { self.feat("macro-comment-in-arg"); self.p("%*c,=);"); } 1 => { self.feat("literal-percent"); let w = self.pick(&["50% ", "% ", "a%\n"]); self.p(w); } _ => self.mvar(true) } }
@@ -200,14 +206,36 @@ impl<'a> G<'a> {
                     }
                     match self.u.below(4) { 0 => self.mark(",", MK::Masked), 1 => self.mark("=", MK::Masked), 2 => self.mark(";", MK::Masked), _ => {} } }
                     self.gclose(); }
+                5 if self.u.coin(1, 8) => { self.str_with_stat(); self.p(" "); }
                 5 => { self.feat("quoted-in-arg"); let q = self.u.coin(1, 2); self.p(if q { "'" } else { "\"" }); self.p("s"); self.tp(); if !q && self.u.coin(1, 3) { self.mvar(true); self.tp(); } self.mark(",", MK::Masked); self.mark(")", MK::Masked); self.mark("=", MK::Masked); self.p(if q { "' " } else { "\" " }); }
                 6 => { self.d_inc(); self.user_call(2); self.depth -= 1; self.p(" "); let w = self.pick(WORDS); self.p(w); }
                 7 => { self.d_inc(); self.builtin_call(2); self.depth -= 1; }
                 8 => { self.p("="); let w = self.pick(WORDS); self.p(w); } // '=' inside value text is just text (after first token / when not a name)
                 9 => { let s = self.pick(&["1", "42", "3.5"]); self.p(s); }
-                _ => { self.p("/"); let w = self.pick(WORDS); self.p(w); }
+                10 => { self.p("/"); let w = self.pick(WORDS); self.p(w); }
+                _ => { self.d_inc(); self.stat_in_value(); self.depth -= 1; }
             }
         }
+    }
+    // a macro statement written inside an argument value ("inline macro statements in macro calls" of the lexer's tests):
+    // its own '=' and ';' are delimiter tokens, the text around it stays argument text
+    fn stat_in_value(&mut self) {
+        self.feat("stat-in-arg");
+        match self.u.below(7) {
+            0 | 1 => self.let_stmt(),
+            2 => self.put_stmt(),
+            3 => { self.feat("if-in-arg"); self.pk("%if"); self.rws(); self.eval_expr(false, false); self.rgap_after_expr(); self.pk("%then"); self.rws(); if self.u.coin(1, 2) { self.let_stmt(); } else { self.do_in_value(); } }
+            4 | 5 => self.do_in_value(),
+            _ => { match self.u.below(4) { 0 => { self.pk("%return"); self.ows(); self.del_mark(";", "SEMI", "MissingExpectedSemiOrEOF", false); } 1 => { self.pk("%goto"); self.rws(); self.p("done"); self.ows(); self.mark(";", MK::Delim("SEMI", false)); } 2 => { self.pk("%local"); self.rws(); self.name_expr(); self.mark(";", MK::Delim("SEMI", false)); } _ => { self.p("%* c,=);"); } } }
+        }
+    }
+    fn do_in_value(&mut self) {
+        self.feat("do-in-arg"); self.pk("%do");
+        if self.u.coin(1, 3) { self.rws(); self.name_expr(); self.ows(); self.del_mark("=", "ASSIGN", "MissingExpectedAssign", false); self.ows(); self.eval_expr(false, false); self.rgap_after_expr(); self.pk("%to"); self.rws(); self.eval_expr(false, false); self.gap_after_expr(); self.mark(";", MK::Delim("SEMI", false)); }
+        else { self.ows(); self.mark(";", MK::Delim("SEMI", false)); }
+        let n = self.u.below(3);
+        for _ in 0..n { match self.u.below(4) { 0 => { self.p(" "); let w = self.pick(WORDS); self.p(w); self.p(" "); } 1 => { self.p(" "); self.mvar(true); self.p(" "); } 2 => self.let_stmt(), _ => self.put_stmt() } }
+        self.pk("%end"); self.ows(); self.del_mark(";", "SEMI", "MissingExpectedSemiOrEOF", false);
     }
     pub fn builtin_call(&mut self, _ctx: usize) {
         self.feat("builtin");
@@ -249,6 +277,7 @@ impl<'a> G<'a> {
                 6 => { self.gopen(); self.p("in"); self.tp(); self.mark(",", MK::Masked); self.p("ner"); self.tp(); self.gclose(); }
                 7 => { if nr { self.p("&amp %mac"); } else { self.mvar(true); } }
                 8 => { self.feat("str-inner-tokens"); match self.u.below(6) { 0 => self.p("'q;' "), 1 => self.p("\"r,\" "), 2 => self.p("/"), 3 => self.p("/*c,)*/"), 4 => self.p("\n"), _ => { if nr { self.p("%"); self.p(" "); } else { self.d_inc(); self.user_call(2); self.depth -= 1; if !self.out.ends_with(')') { self.p(" w"); } } } } }
+                9 if !nr && self.u.coin(1, 3) => { self.feat("stat-in-str"); self.d_inc(); if self.u.coin(1, 2) { self.str_with_stat(); } else if self.u.coin(1, 2) { self.let_stmt(); } else { self.put_stmt(); } self.depth -= 1; }
                 _ => { self.mark("=", MK::Masked); }
             }
         }
